@@ -88,7 +88,7 @@ theorem phrase_with_zone (s off : Int) (z : Zone) (zname : String) :
     ∃ pat, (Gen.rule_en_time_with_timezone Rat).patterns[0]? = some pat ∧
       (findMatch ([] : Vars Rat) pat [SCP.C05.ti (tim s z), ⟨0, 0, some (.tz zname off), "", true⟩]).found = true := by
   refine ⟨_, rfl, ?_⟩
-  simp [findMatch, findMatch.go, SCP.C05.ti, tim, infoEq, tokEq, tokFieldCompare, fieldNameOf, Field.name, Fields.insert]
+  simp [findMatch, findMatch.go, sameTok, SCP.C05.ti, tim, infoEq, tokEq, tokFieldCompare, fieldNameOf, Field.name, Fields.insert]
 
 example : shown (11 * 3600 + 30 * 60 + 5 * 3600) (-300) = 11 * 3600 + 30 * 60 := by decide
 
